@@ -790,7 +790,9 @@ int main(int argc, char** argv) {
             for (int j = 0; j < t.mine; ++j) t.fns[j](CaseId{t.id, j * NSLICES + SLICE, 0, 0}, env, -1, -1);
         ++done;
     }
+#ifndef C20_ONLY_TABLE4
     if (SLICE == 0) cnt["item_sequences"] += done;
+#endif
     cnt.emit();
     static const uint8_t tcode[] = {0, 1, 2, 3, 4, 5, 0x11, 0x12, 0x13, 0x23, 0x40, 0x41, 0x80};
     for (size_t i = 0; i < g_seen.size(); ++i) {
